@@ -5,6 +5,7 @@ package main
 
 import (
 	"bytes"
+	"encoding/json"
 	"fmt"
 	"strings"
 	"time"
@@ -20,7 +21,7 @@ var stateOps = []string{"sign-good-A", "sign-good-B", "sign-early", "sign-late",
 
 // every other place a signing can fail: at the signer, at an extended attribute, at the timestamping step (after the signer was
 // invoked and the new message exists, before it is assigned), and — after the assignment — at an empty signature
-var stateOpsWide = []string{"sign-good-A", "sign-good-B", "sign-early", "sign-early-signer-error", "sign-early-bad-attribute", "sign-early-timestamp-fails",
+var stateOpsWide = []string{"sign-good-A", "sign-good-B", "sign-good-A-timestamped", "sign-early", "sign-early-signer-error", "sign-early-bad-attribute", "sign-early-timestamp-fails",
 	"sign-early-timestamp-rejected", "sign-late", "sign-late-empty-signature", "verify", "content"}
 
 const payloadA = `{"which":"A"}`
@@ -62,13 +63,23 @@ func runHistory(r *Runner, format string, start string, ops []string, idx int, l
 	var env signature.Envelope
 	var startAbs any
 	var startSig []byte
+	startPrint := ""
+	dersI := &interner{}
+	fingerprint := func(c *signature.EnvelopeContent) string {
+		b, _ := json.Marshal(canonContent(c, dersI, goTok))
+		return string(b)
+	}
 	switch start {
 	case "new":
 		env = newEnvelope(format)
 	default:
 		// a parsed envelope: produced by a separate object
 		e0 := newEnvelope(format)
-		b, err := e0.Sign(baseRequest(mkSigner(), payloadParsed, signature.SigningSchemeX509, now))
+		req0 := baseRequest(mkSigner(), payloadParsed, signature.SigningSchemeX509, now)
+		req0.SigningAgent = "agent-of-the-parsed-envelope/1.0"
+		req0.Expiry = now.Add(100 * time.Hour)
+		req0.ExtendedSignedAttributes = []signature.Attribute{{Key: "parsed.attr", Critical: true, Value: "p"}}
+		b, err := e0.Sign(req0)
 		if err != nil {
 			panic(err)
 		}
@@ -92,13 +103,16 @@ func runHistory(r *Runner, format string, start string, ops []string, idx int, l
 		if e3, err := signature.ParseEnvelope(mediaType(format), b); err == nil {
 			if c, err := e3.Content(); err == nil {
 				startSig = append([]byte{}, c.SignerInfo.Signature...)
+				startPrint = fingerprint(c)
 			}
 		}
 		startAbs = map[string]any{"content": 4, "verifies": verifies, "readable": readable}
 	}
 	// the signature value the object must be showing: that of the bytes it was parsed from, then that of the bytes the last
-	// successful Sign returned ("matches the bytes that signing returned")
+	// successful Sign returned ("matches the bytes that signing returned") — and with it the whole content, the optional and
+	// the unsigned parts included, as another object parsed from those bytes shows it
 	current := startSig
+	currentPrint := startPrint
 	var absOps []any
 	var outs []any
 	for _, op := range ops {
@@ -128,6 +142,8 @@ func runHistory(r *Runner, format string, start string, ops []string, idx int, l
 				o = map[string]any{"o": "shows", "c": contentID(c.Payload.Content)}
 				if current != nil && !bytes.Equal(c.SignerInfo.Signature, current) {
 					o["state_defect"] = "object_shows_another_signature_value_than_the_bytes_it_holds: " + op
+				} else if fp := fingerprint(c); currentPrint != "" && fp != currentPrint {
+					o["state_defect"] = "object_shows_other_content_than_the_bytes_it_holds: " + op + " shows " + fp + " where the bytes say " + currentPrint
 				}
 			}()
 			outs = append(outs, o)
@@ -135,8 +151,15 @@ func runHistory(r *Runner, format string, start string, ops []string, idx int, l
 			var req *signature.SignRequest
 			var a map[string]any
 			switch op {
-			case "sign-good-A":
+			case "sign-good-A", "sign-good-A-timestamped":
+				// request A uses every optional part of a request; request B none of them
 				req = baseRequest(mkSigner(), payloadA, signature.SigningSchemeX509, now)
+				req.SigningAgent = "agent-of-A/1.0"
+				req.Expiry = now.Add(50 * time.Hour)
+				req.ExtendedSignedAttributes = []signature.Attribute{{Key: "a.attr", Critical: true, Value: "a"}, {Key: "a.other", Value: "b"}}
+				if op == "sign-good-A-timestamped" {
+					tsSetup(&tsSpec{configured: true, mode: "http", behaviour: "good", tsaLen: 2, roots: "right", validator: "none"}, req, []byte(payloadA))
+				}
 				a = map[string]any{"op": "sign-good", "msg": map[string]any{"content": 1, "verifies": true, "readable": true}}
 			case "sign-good-B":
 				req = baseRequest(mkSignerB(), payloadB, signature.SigningSchemeX509SigningAuthority, now)
@@ -175,6 +198,7 @@ func runHistory(r *Runner, format string, start string, ops []string, idx int, l
 				// valid chain, signing time outside the leaf's validity: the format-level Sign succeeds,
 				// the wrapper's chain check at the signing time fails
 				req = baseRequest(mkSigner(), payloadLate, signature.SigningSchemeX509, id.chain[0].NotBefore.Add(-48*time.Hour))
+				req.SigningAgent = "agent-of-the-late-failure/1.0"
 				a = map[string]any{"op": "sign-late", "msg": map[string]any{"content": 3, "verifies": false, "readable": false}}
 			}
 			absOps = append(absOps, a)
@@ -200,6 +224,7 @@ func runHistory(r *Runner, format string, start string, ops []string, idx int, l
 					if c, cerr := e2.Content(); cerr == nil {
 						cid = contentID(c.Payload.Content)
 						current = append([]byte{}, c.SignerInfo.Signature...)
+						currentPrint = fingerprint(c)
 					}
 				}
 				o = map[string]any{"o": "signOk", "c": cid}
